@@ -274,7 +274,7 @@ func c10Check(c *Ctx, m map[string]interface{}, key string, val interface{}, asS
 	addressed := c10Addressed(before, key, steps)
 	var conds []cond
 	for _, s := range subkeys {
-		conds = append(conds, parseCond(s, ""))
+		conds = append(conds, parseCond(s, c10Sep))
 	}
 	detail := func(what string) string {
 		return fmt.Sprintf("%s\n before=%s\n  after=%s\n newVal=%s path=%q subkeys=%v count=%d", what, jsonOf(before), jsonOf(map[string]interface{}(mv)), jsonOf(newVal), path, subkeys, count)
@@ -484,7 +484,7 @@ func halfNewLeaves() func() interface{} {
 
 func c10Run(c *Ctx) {
 	mustBeDefault(c)
-	c.S.Rule = "cases = (Map, new value, path, sub-keys): every Map template with <= N nodes over keys {a,ab,k} (lists, list-in-list, empty containers) x new value {k|ab : \"NEW\" | {\"nk\":\"NEW\"}} given as map and as 'key:value[:type]' string (for the value \"NEW\" also on Maps in which every second leaf already holds \"NEW\", as an earlier update leaves them, judged against the same call on the twin Map with all leaves distinct: same count, same Map leaf for leaf, count copies afterwards; and the string form again under the field separators {|, ::, =>, U+00A7} with a value that contains ':', Maps one node smaller, paths of <= 2 steps) x every path of <= 3 steps over {a,b,k,z,*} (both addressing forms) x sub-key sets {none, presence, negated presence, value, typed}; oracle is relational on a deep copy taken before the call: frame, location (against reference addressed set), sub-keys, count, count-copies. Each case under ascending and descending map order; cases with wildcards additionally under every single order deviation (E-choice bound 1) for the smaller Maps. Updated Maps are retained (last 4) and re-checked deeply after every later call. non-trivial = count > 0."
+	c.S.Rule = "cases = (Map, new value, path, sub-keys): every Map template with <= N nodes over keys {a,ab,k} (lists, list-in-list, empty containers) x new value {k|ab : \"NEW\" | {\"nk\":\"NEW\"}} given as map and as 'key:value[:type]' string (for the value \"NEW\" also on Maps in which every second leaf already holds \"NEW\", as an earlier update leaves them, judged against the same call on the twin Map with all leaves distinct: same count, same Map leaf for leaf, count copies afterwards; and the string form again under the field separators {|, ::, =>, U+00A7} with a value that contains ':', Maps one node smaller, paths of <= 2 steps; and sub-key texts that read differently under ':' and '|' applied under both in turn, twice) x every path of <= 3 steps over {a,b,k,z,*} (both addressing forms) x sub-key sets {none, presence, negated presence, value, typed}; oracle is relational on a deep copy taken before the call: frame, location (against reference addressed set), sub-keys, count, count-copies. Each case under ascending and descending map order; cases with wildcards additionally under every single order deviation (E-choice bound 1) for the smaller Maps. Updated Maps are retained (last 4) and re-checked deeply after every later call. non-trivial = count > 0."
 	c.S.Assumptions = []string{"insertion of key k into an addressed map that lacks it is accepted (and counted iff it happens)", "addressed set computed by the reference walker (one-level reading; both readings accepted for list-in-list Maps)"}
 	n1, n2, ech := 5, 5, 4
 	if c.Thorough {
@@ -591,6 +591,35 @@ func c10Run(c *Ctx) {
 				}
 			}
 		})
+		mxj.SetFieldSeparator()
+		c10Sep = ""
+	}
+	// the same sub-key text under both separators in one process, switched back and forth between the calls:
+	// "a|s:s" is (key "a|s" = "s") under ':' and (key "a" = "s:s") under '|'
+	ambMap := `{"l":[{"a|s":"s","a":"q","k":"v1"},{"a":"s:s","k":"v2"},{"a|s":"q","a":"s:s","k":"v3"},{"a":"s","k":"v4"}],"k":"v5"}`
+	for _, text := range []string{"a|s:s", "!a|s:s", "a|s:*", "a:s|s"} {
+		if !c.Mine() {
+			continue
+		}
+		c.S.States++
+		c.S.Evaluations++
+		for round := 0; round < 2; round++ {
+			for _, sep := range []string{":", "|"} {
+				if n := len(strings.Split(text, sep)); n < 2 || n > 3 {
+					continue
+				}
+				mxj.SetFieldSeparator(sep)
+				c10Sep = ""
+				if sep != ":" {
+					c10Sep = sep
+				}
+				for _, p := range []string{"l.k", "l", "*.k"} {
+					c10Check(c, fromJSON(ambMap).(map[string]interface{}), "k", map[string]interface{}{"nk": "NEW"}, "", p, []string{text}, nil)
+					c.S.Schedules++
+					c.S.Validated++
+				}
+			}
+		}
 		mxj.SetFieldSeparator()
 		c10Sep = ""
 	}
